@@ -48,3 +48,18 @@ Fixpoint check_run (ev : env) (s : state) (calls : list call) (impl : list (rres
 Definition check_history (c : hist_case) : bool :=
   check_run (mk_env (h_pre c) (h_known c)) (init (h_sufs c))
             (map (expand (h_pool c)) (h_calls c)) (h_impl c).
+
+(* a history followed by render() of the given names on the long-lived instance (used by C11:
+   the graph that is checked must be the graph of the WHOLE current set after every call) *)
+Record hrender_case := {
+  hr_hist : hist_case;
+  hr_names : list name;
+  hr_impl : list rout }.
+
+Definition model_hrender (c : hrender_case) : list rout :=
+  let h := hr_hist c in
+  let s := snd (run (mk_env (h_pre h) (h_known h)) (init (h_sufs h)) (map (expand (h_pool h)) (h_calls h))) in
+  map (fun n => render (render_fuel s) (h_pre h) s n) (hr_names c).
+
+Definition check_hrender (c : hrender_case) : bool :=
+  list_eqb rout_agree (model_hrender c) (hr_impl c).
